@@ -23,6 +23,13 @@ class PInterp(Interp):
             t = (n.inner[0].dtype or n.inner[0].type or '').strip()
             if t.endswith('*'):
                 return _Ref(self.place(n.inner[0], env))
+        if n.opcode in ('++', '--') and n.inner[0].strip().kind == 'DeclRefExpr':
+            # char *q over a concrete string: q++ (the shared engine only models `q + 1` and `q += 1`)
+            pl = self.place(n.inner[0], env)
+            oldv = pl.get(self)
+            if isinstance(oldv, str) and n.opcode == '++':
+                pl.set(self, oldv[1:])
+                return oldv if n.d.get('isPostfix') else oldv[1:]
         return super().e_UnaryOperator(n, env)
 
 
@@ -133,16 +140,24 @@ def mk_hideset(names):
     return head
 
 
+class NotConcrete(Exception):
+    pass
+
+
 def hideset_names(it, hs):
+    """names of a concrete Hideset list; raises NotConcrete when the list is not a NULL-terminated chain of concrete cells"""
     out = []
     v = it.settle(hs) if hs is not None else 0
     k = 0
     while isinstance(v, Obj) and k < 100:
-        out.append(v.fields.get('name'))
+        nm = v.fields.get('name')
+        if not isinstance(nm, str):
+            raise NotConcrete('name %r' % (nm,))
+        out.append(nm)
         v = it.settle(v.fields.get('next', 0))
         k += 1
     if not (isinstance(v, int) and v == 0):
-        return None
+        raise NotConcrete('tail %r' % (v,))
     return out
 
 
